@@ -123,6 +123,9 @@ def convert_asynq_to_async(fn):
                             result = generator.throw(exception)
                     except StopIteration as exc:
                         return exc.value
+                    except async_task.AsyncTaskResult as exc:
+                        # the body finished with asynq.result(value)
+                        return exc.result
 
                     try:
                         send = await resolve_awaitables(result)
